@@ -1687,6 +1687,21 @@ impl<'a> Gen<'a> {
             self.busy_until[s] = 0;
             return;
         }
+        if self.rng.chance(1, 4) {
+            // the OLDER, LOWER nonce expires at a finalise while a younger, higher one still waits: the sweep
+            // takes the expired one only; then the gap is refilled (k+1 again, then k) before k+2 expires
+            let gap = self.rng.range(3, 7);
+            self.block_with(&[(s, k + 1)], true);
+            self.mine(gap - 1);
+            self.block_with(&[(s, k + 2)], false);
+            let now = self.next_height();
+            // blocks start .. start+10 finalised: (s, k+1) is ten blocks old, (s, k+2) is not
+            if start + 11 > now { self.mine(start + 11 - now); }
+            self.block_with(&[(s, k + 1)], false);
+            self.block_with(&[(s, k)], true);
+            self.busy_until[s] = 0;
+            return;
+        }
         if self.rng.chance(1, 2) {
             // an expired entry BETWEEN live ones: k+2 first, k+1 and k+3 later, k around the expiry edge
             // of k+2 (the drain must stop at k+2 although k+1 ran and k+3 is still fresh)
